@@ -374,6 +374,14 @@ class Mapper(Client):
 
     def new_dist(self, role=None):
         r, w = self.rng, self.w
+        srcs = [d for d in w.pool["dist"] if w.meta["dist"][d]["dkind"] != "constant"]
+        if srcs and r.random() < 0.15:
+            # a separate object with exactly the parameters of an existing one
+            dm = w.meta["dist"][self.pick(srcs)]
+            return {"op": "new_dist", "dkind": dm["dkind"], "args": list(dm["args"]),
+                    "out": w.new_id("dist"), "seed": self.seed_value(),
+                    "role": role or r.choice(["loss", "phase_offset",
+                                              dm.get("role") or "loss"])}
         role = role or r.choice(["bs_reflectivity", "loss", "phase_offset"])
         kind = r.choice(["constant", "gaussian", "gaussian", "tophat"])
         if role == "bs_reflectivity":
